@@ -214,6 +214,12 @@ def rowsExec (exec : Ty → Cell → Option Value) (tys : List Ty) : List (List 
     | some v, some vs => some (v :: vs)
     | _, _ => none
 
+/-- column pruning: the executing datasource gets the subset `schema.Fields` of the inferred schema (same order);
+    `keep` is applied cyclically -/
+def keepCols {α} (keep : List Bool) (l : List α) : List α :=
+  if keep.isEmpty then l
+  else (l.zipIdx.filter fun p => keep.getD (p.2 % keep.length) true).map (·.1)
+
 inductive RunRes where
   | errCreate
   | fuel
@@ -231,6 +237,19 @@ def csvRun (f : CsvFile) : RunRes :=
     else match rowsExec cellExec tys f.rows with
       | some recs => .ok names tys recs
       | none => .errRun names tys
+
+/-- Creator, then `Run` with a pruned schema: `usedColumns` / `indicesToRead` select the cells of the kept columns -/
+def csvRunKeep (keep : List Bool) (f : CsvFile) : RunRes :=
+  match csvCreate f with
+  | .error => .errCreate
+  | .fuel => .fuel
+  | .ok names tys =>
+    let names' := keepCols keep names
+    let tys' := keepCols keep tys
+    if (firstRagged f.ncols 0 f.rows).isSome then .errRun names' tys'
+    else match rowsExec cellExec tys' (f.rows.map (keepCols keep)) with
+      | some recs => .ok names' tys' recs
+      | none => .errRun names' tys'
 
 /-! ### Specification for one cell -/
 
